@@ -13,22 +13,23 @@ def assign_ob(oid, n, oracle, what, timeout, fixed=None, extra_body=""):
     """Obligation over the real _assign_pages with n rows.  heights / nrow / add are UNBOUNDED ints
     (h >= 1, nrow >= 1, add >= 0); flags symbolic unless fixed."""
     fixed = fixed or {}
-    names = (["h%d" % i for i in range(n)] + ["s%d" % i for i in range(n)] + ["g%d" % i for i in range(n)]
-             + ["nrow", "add", "new_page"])
-    types = dict([("h%d" % i, "int") for i in range(n)] + [("s%d" % i, "bool") for i in range(n)]
+    names = (["h%d" % i for i in range(n)] + ["c%d" % i for i in range(1, n)] + ["s%d" % i for i in range(n)]
+             + ["g%d" % i for i in range(n)] + ["nrow", "add", "new_page"])
+    types = dict([("h%d" % i, "int") for i in range(n)] + [("c%d" % i, "int") for i in range(n)]
+                 + [("s%d" % i, "bool") for i in range(n)]
                  + [("g%d" % i, "bool") for i in range(n)] + [("nrow", "int"), ("add", "int"), ("new_page", "bool")])
     sig = ", ".join("%s: %s" % (a, types[a]) for a in names if a not in fixed)
-    pre = ["h%d >= 1" % i for i in range(n)] + ["nrow >= 1", "add >= 0"]
+    pre = ["h%d >= 1" % i for i in range(n)] + ["c%d >= 0" % i for i in range(1, n)] + ["nrow >= 1", "add >= 0"]
     consts = "".join("    %s = %r\n" % (k, v) for k, v in fixed.items())
     body = consts + (
-        "    H = [%s]\n    S = [%s]\n    G = [%s]\n" % (
+        "    H = [%s]\n    S = [%s]\n    G = [%s]\n    C = [%s]\n" % (
             ", ".join("h%d" % i for i in range(n)), ", ".join("s%d" % i for i in range(n)),
-            ", ".join("g%d" % i for i in range(n)))
-        + "    pages = assign(H, S, G, nrow, add, new_page)\n" + extra_body + "    return " + oracle + "\n")
+            ", ".join("g%d" % i for i in range(n)), ", ".join(["0"] + ["c%d" % i for i in range(1, n)]))
+        + "    pages = assign(H, S, G, nrow, add, new_page, C)\n" + extra_body + "    return " + oracle + "\n")
     part = (" partition " + ",".join("%s=%s" % kv for kv in fixed.items())) if fixed else ""
     return Ob(oid=oid, sig=sig, pre=pre, body=body, header=HDR, timeout=timeout, funcs=F_ASSIGN,
               stubs=["metadata frame -> MetaFrame (height, to_dicts()); pl.DataFrame(rows) -> recording object"],
-              bounds="n=%d rows; heights>=1, nrow>=1, reserved>=0 unbounded ints; all flag vectors%s" % (n, part),
+              bounds="n=%d rows; heights>=1, continuation-heading rows>=0, nrow>=1, reserved>=0 unbounded ints; all flag vectors%s" % (n, part),
               what=what)
 
 
